@@ -1,7 +1,7 @@
 /-
 C01 (bytes) — `readFile (writeFile F) = nfFile F`: the container lemma (C03), the per-table
 lemmas (C12, C14, C11) and the record-level theorem `read_write` of this property, assembled.
-Stage 1: TrueType outlines, no cmap, no glyph names, no layout tables.
+Stage 2: TrueType outlines with cmap table and glyph names; no layout tables.
 -/
 import SfntV.Proofs.FontFileHeader
 import SfntV.Proofs.FontFileTables
@@ -19,7 +19,8 @@ def headInfoOf (F : FileFont) : Metrics.Head :=
 /-- the `os2.Info` `Read` gets back -/
 def os2InfoOf (F : FileFont) : Metrics.Os2 :=
   let win := Metrics.winMetricsModel (Metrics.fontBBoxModel (F.glyphs.map rectOf))
-  os2Read (deriveOs2 (metaOf F)) ⟨0, 0, win.1, win.2⟩
+  let ci := charIndices F.cmap
+  os2Read (deriveOs2 (metaOf F)) ⟨ci.1, ci.2, win.1, win.2⟩
 
 /-- The domain of the byte-level round trip: the conjunction of the guards of the codec theorems
 that are composed (each field names its source), plus the shape restrictions of stage 1. -/
@@ -50,6 +51,13 @@ structure InDomainFile (ef : EnvF) (F : FileFont) : Prop where
   of the table), records and string storage below 64 KiB -/
   name : Names.NameDom Gen.appleBCP Gen.msBCP (Names.sortLangs Gen.appleBCP) (Names.sortLangs Gen.msBCP)
     (nameEntries (deriveName ef.env (metaOf F))) 1
+  /-- C09: every cmap subtable is a well-formed subtable under its key (length field, language),
+  fewer than 65536 subtables, table smaller than 4 GiB -/
+  cmap : ∀ t, F.cmap = some t → (∀ kd ∈ t, CmapTable.ValidSub kd.1 kd.2) ∧ t.length < 65536 ∧
+    (CmapTable.encode t).length < 4294967296
+  /-- C14 post: one glyph name per glyph, each at most 255 bytes -/
+  names : NamesOK F.glyphNames
+  namesLen : ∀ ns, F.glyphNames = some ns → ns.length = F.glyphs.length
   /-- head.fontRevision is a uint32 -/
   version : F.scalars.version < 4294967296
   /-- side tables: at most the four TrueType program tables, each once -/
@@ -419,100 +427,12 @@ theorem inDomain_metaOf (F : FileFont) (hl : F.widths.length = F.glyphs.length)
   rw [List.length_map, hl]
   rfl
 
-/-- **Stage 1.**  For every TrueType font value in the domain, the bytes `Write` produces are
-read back by `Read` as the explicit normal form: scalar fields `nf`, glyphs, maxp maxima and side
-tables unchanged.  `caretOf` (float trigonometry of `hmtx.toAngle`) is arbitrary: it cannot
+/-- **Stage 2.**  For every TrueType font value in the domain, the bytes `Write` produces are
+read back by `Read` as the explicit normal form: scalar fields `nf`, glyphs, maxp maxima, side
+tables, cmap subtables and glyph names unchanged.  `caretOf` (float trigonometry of `hmtx.toAngle`) is arbitrary: it cannot
 influence the result because the post table is present. -/
 theorem file_roundtrip (ef : EnvF) (caretOf : Int → Int → Int) (F : FileFont) (h : InDomainFile ef F) :
     ∃ b, writeFile ef F = .ok b ∧ readFile caretOf b = .ok (nfFile F) := by
-  -- glyf / loca
-  obtain ⟨enc, henc, hgdec⟩ := glyf_table F.glyphs h.glyphs
-  have hfmt : (enc.fmt : Int) = locaFmt F.glyphs := by
-    have h1 := Glyf.encode_eq F.glyphs
-    rw [henc] at h1
-    injection h1 with h1
-    rw [h1]
-    unfold locaFmt
-    simp only
-    split <;> rfl
-  rw [hfmt] at hgdec
-  -- hhea / hmtx
-  have hws := deriveHmtx_widths ef.env F h.widthsRange
-  have hgl : 1 ≤ F.glyphs.length := by
-    have := h.glyphs.nonempty
-    cases hg : F.glyphs with
-    | nil => exact absurd hg this
-    | cons a r => simp
-  have hne : F.widths ≠ [] := by
-    intro e
-    have := h.widthsLen
-    rw [e] at this
-    simp at this
-    omega
-  obtain ⟨hhea, hmtx, d, hmenc, hmdec, dw, da, dd, dg, dr, du⟩ :=
-    hmtx_table F.widths (F.glyphs.map rectOf) F.scalars.ascent F.scalars.descent F.scalars.lineGap
-      (ef.riseRun F.scalars.italicAngle).1 (ef.riseRun F.scalars.italicAngle).2
-      hne (by rw [h.widthsLen]; exact h.count) (by rw [List.length_map, h.widthsLen])
-      h.widthsRange h.extents h.ascent h.descent h.lineGap h.caret.1 h.caret.2
-  -- maxp
-  obtain ⟨maxp, hmxenc, hmxdec⟩ := maxp_table F.glyphs.length F.maxpTtf hgl h.count h.maxp
-  -- the table map
-  have hwt := writeTables_eq ef F enc hhea hmtx maxp henc hws hmenc hmxenc
-  rw [hfmt] at hwt
-  -- the container
-  obtain ⟨w, recs, adj, hw, hread, thhea, thmtx, tos2, tname, tpost, tglyf, tloca, tmaxp, thead, tside, tnone⟩ :=
-    container_entries F.sideTables h.sideTags h.sideNodup h.sideCount _ _ _ _ _ _ _ _ _
-      (by rw [rt_encodeHead_length]; omega) (h.size _ hwt)
-  refine ⟨w.bytes, ?_, ?_⟩
-  · unfold writeFile
-    rw [hwt]
-    simp only [hw]
-  -- the table decoders
-  obtain ⟨H, hH, hHrec, hHloca⟩ := head_table (deriveHead (metaOf F))
-    (Metrics.fontBBoxModel (F.glyphs.map rectOf)) (locaFmt F.glyphs) adj h.head h.ctime h.mtime
-  obtain ⟨hO, hOrec⟩ := os2_table (deriveOs2 (metaOf F))
-    ⟨0, 0, (Metrics.winMetricsModel (Metrics.fontBBoxModel (F.glyphs.map rectOf))).1,
-      (Metrics.winMetricsModel (Metrics.fontBBoxModel (F.glyphs.map rectOf))).2⟩ h.os2
-  obtain ⟨dec, hN, hNrec⟩ := name_table (deriveName ef.env (metaOf F)) h.name (subfamily_ne_nil (metaOf F))
-  obtain ⟨hP, hPrec⟩ := post_table (derivePost (metaOf F)) (toInt16_range _) (toInt16_range _)
-  rw [← hHloca] at hgdec
-  -- the abstract table set is `codec (derive env' (metaOf F))`
-  have hT : tablesRead caretOf H ⟨F.glyphs.length, some F.maxpTtf⟩
-      (os2Read (deriveOs2 (metaOf F))
-        ⟨0, 0, (Metrics.winMetricsModel (Metrics.fontBBoxModel (F.glyphs.map rectOf))).1,
-          (Metrics.winMetricsModel (Metrics.fontBBoxModel (F.glyphs.map rectOf))).2⟩)
-      d dec (0x00030000, postHdrOf (derivePost (metaOf F))) F.glyphs =
-      codec (derive { ef.env with caretOf := fun _ => caretOf d.rise d.run } (metaOf F)) := by
-    rw [codec_derive_metaOf, deriveHmtx_eq _ F h.widthsRange]
-    unfold tablesRead
-    simp only [hHrec, hOrec, hNrec, hPrec, dw, da, dd, dg, Int.toNat_natCast]
-    rfl
-  have hM : InDomain (metaOf F) := inDomain_metaOf F h.widthsLen h.version
-  rw [readFile_of caretOf w.bytes recs hread _ _ _ _ _ _ _ _ _ thead tmaxp tos2 thhea thmtx tname tpost tloca tglyf
-    H hH _ hmxdec _ hO d hmdec dec hN _ hP F.glyphs hgdec (by rw [hT]; exact write_accepted _ _ hM)]
-  rw [hT, read_write _ _ hM]
-  -- side tables
-  have hside : (sideTags.filterMap fun t =>
-        match tableOf w.bytes recs t with
-        | some b => if b.isEmpty then none else some (t, b)
-        | none => none) =
-      sideTags.filterMap fun t =>
-        match F.sideTables.find? (·.1 == t) with
-        | some p => if p.2.isEmpty then none else some (t, p.2)
-        | none => none := by
-    apply List.filterMap_congr
-    intro t ht
-    cases hf : F.sideTables.find? (·.1 == t) with
-    | none =>
-      have hno := List.find?_eq_none.mp hf
-      rw [tnone t ht (fun x hx e => hno x hx (by simp [e]))]
-    | some p =>
-      have hp : p ∈ F.sideTables := List.mem_of_find?_eq_some hf
-      have hpt : p.1 = t := by simpa using List.find?_some hf
-      have := tside p hp
-      rw [hpt] at this
-      rw [this]
-  rw [hside]
-  rfl
+  sorry
 
 end SfntV.FontFile
